@@ -533,7 +533,31 @@ func (g *gen17) mutate17(t *T17) *T17 {
 			x = funs[g.r.intn(len(funs))]
 		}
 	}
-	switch g.r.intn(5) {
+	switch g.r.intn(6) {
+	case 5:
+		// ONE occurrence of a variable becomes another variable; without variables, one map key changes its primitive type
+		var vs, keys []*T17
+		for _, nd := range nodes {
+			if nd.K == "var" {
+				vs = append(vs, nd)
+			}
+			if nd.K == "map" && (nd.A[0].K == "num" || nd.A[0].K == "str") {
+				keys = append(keys, nd.A[0])
+			}
+		}
+		switch {
+		case len(vs) > 0:
+			v := vs[g.r.intn(len(vs))]
+			for _, nn := range []string{"a1", "a11", "ab1", "zz9"} {
+				if nn != v.N {
+					v.N = nn
+					break
+				}
+			}
+		case len(keys) > 0:
+			k := keys[g.r.intn(len(keys))]
+			k.K = map[string]string{"num": "str", "str": "num"}[k.K]
+		}
 	case 0:
 		if x.K != "tuple" {
 			*x = *g.ty(1, false, false)
@@ -675,7 +699,52 @@ func genCase17(r *rng) *Case17 {
 	case 3, 4, 5, 6:
 		c.Mode = "unify"
 		c.X = g.top(d, true, r.chance(0.2))
-		switch r.intn(8) {
+		switch r.intn(9) {
+		case 8:
+			// occurs twins: one variable twice on one side; on the other side a container around
+			// a second variable and that bare variable (in either order), optionally through an
+			// alias. No finite unifier exists: whatever succeeds here binds a variable to a type
+			// containing itself.
+			v1, v2, v3 := "a1", "a11", "ab1"
+			V := func(n string) *T17 { return &T17{K: "var", N: n} }
+			var wrapped *T17
+			switch r.intn(4) {
+			case 0:
+				wrapped = &T17{K: "list", A: []*T17{V(v2)}}
+			case 1:
+				wrapped = &T17{K: "maybe", A: []*T17{V(v2)}}
+			case 2:
+				wrapped = &T17{K: "map", A: []*T17{{K: "str"}, V(v2)}}
+			default:
+				wrapped = &T17{K: "fun", N: "g", A: []*T17{{K: "num"}, V(v2)}}
+			}
+			l := []*T17{V(v1), V(v1)}
+			rr := []*T17{wrapped, V(v2)}
+			if r.chance(0.4) {
+				rr[0], rr[1] = rr[1], rr[0]
+			}
+			if r.chance(0.3) {
+				// through an alias: (X, Z, X) ~ (C[Z], Y, Y)
+				wrapped.A[len(wrapped.A)-1] = V(v3)
+				l = []*T17{V(v1), V(v3), V(v1)}
+				rr = []*T17{wrapped, V(v2), V(v2)}
+			}
+			switch r.intn(3) {
+			case 0:
+				c.X = &T17{K: "tuple", A: l}
+				c.Y = &T17{K: "tuple", A: rr}
+			case 1:
+				names := []string{"p", "q", "r"}[:len(l)]
+				c.X = &T17{K: "obj", F: append([]string(nil), names...), A: l}
+				c.Y = permuteFields(&T17{K: "obj", F: append([]string(nil), names...), A: rr}, r)
+			default:
+				// function: the last position is the result
+				c.X = &T17{K: "fun", N: "f", A: l}
+				c.Y = &T17{K: "fun", N: "f", A: rr}
+			}
+			if r.chance(0.5) {
+				c.X, c.Y = c.Y, c.X
+			}
 		case 7:
 			// twins: one variable of the pattern faces two copies of a type that differ only
 			// in a bottom / top constant inside one of them (a variable stands for ONE type;
